@@ -160,15 +160,16 @@ def translateBytes (locals : Bool) (tr : Translator) (s : Bytes) : Option (Bytes
 /-! ### constituents -/
 
 /-- text references: C17's specification of `TranslateRaw` (found references by the candidate
-scan and the reference grammar; an affected entity reference is re-spelled with the new name,
-everything else byte for byte) -/
+scan and the reference grammar; in an affected entity reference the bytes of the name are replaced
+by the new name, everything else byte for byte) -/
 def translateRefs (tr : Translator) (s : Bytes) : Option Bytes :=
   (decode s).map (Refs.Spec.translateSpec tr)
 
-/-- STRICT reading of "changes nothing else" for text references: of an affected entity reference
-only the bytes of the name change (`@{` name `|…}` keeps its tags, their order, blanks and legacy
-fields byte for byte). The code re-spells the whole reference instead (`Reference::ToString`); see
-`translateRaw_respells_reference_counterexample`. -/
+/-- STRICT reading of "changes nothing else" for text references, written down here independently of
+C17's `translatedItem`: of an affected entity reference only the bytes of the name change (`@{` name
+`|…}` keeps its tags, their order, blanks and legacy fields byte for byte); any other found
+reference keeps all its bytes. This is what the code does since the commit "fix: renaming an entity
+inside a text reference rewrites the name only" (`translateRaw_strict`). -/
 def strictItem (tr : Translator) (cps : List Nat) (x : Nat × Nat × Refs.RefData) : Refs.Spec.Found :=
   let orig := encode (Refs.Spec.slice cps x.1 x.2.1)
   match x.2.2 with
@@ -181,6 +182,23 @@ def strictItem (tr : Translator) (cps : List Nat) (x : Nat × Nat × Refs.RefDat
 
 def translateRefsStrict (tr : Translator) (cps : List Nat) : Bytes :=
   Refs.Spec.weave cps 0 ((Refs.Spec.refsOf cps).map (strictItem tr cps))
+
+/-- PINNED old behaviour (the code before the commit named above; not what the code does now, kept
+only for the closed fact `translateRaw_respelled_pinned_observed`): an affected entity reference
+was replaced as a whole by its canonical spelling `Reference::ToString` (known tags in enumerator
+order, blanks / repeated / unknown tags / the legacy field form lost). -/
+def respelledItemPinned (tr : Translator) (cps : List Nat) (x : Nat × Nat × Refs.RefData) : Refs.Spec.Found :=
+  let orig := encode (Refs.Spec.slice cps x.1 x.2.1)
+  match x.2.2 with
+  | .entity n f =>
+    match tr n with
+    | some n' => if n' = n then ⟨x.1, x.2.1, x.2.2, orig⟩
+                 else ⟨x.1, x.2.1, x.2.2, (Refs.RefData.entity n' f).toString⟩
+    | none => ⟨x.1, x.2.1, x.2.2, orig⟩
+  | .collab .. => ⟨x.1, x.2.1, x.2.2, orig⟩
+
+def translateRefsRespelledPinned (tr : Translator) (cps : List Nat) : Bytes :=
+  Refs.Spec.weave cps 0 ((Refs.Spec.refsOf cps).map (respelledItemPinned tr cps))
 
 def translateConcept (tr : Translator) (c : Concept) : Option Concept :=
   match translateBytes false tr c.definition, translateBytes false tr c.convention,
